@@ -103,6 +103,11 @@ if ! grep -q FORKLINE "$cur" 2>/dev/null && grep -q WASFORK "$cur" 2>/dev/null; 
   # a test that is still running (with a child of its own) when it is cancelled or times out
   sleep 30 &
   echo "child $!" >> "$L"
+  # children that leave the script's process group / session (what `timeout N compiler …` and daemonising tools do)
+  setsid sleep 31 &
+  echo "child $!" >> "$L"
+  timeout 32 sleep 32 &
+  echo "child $!" >> "$L"
   wait
 fi
 if grep -q NOISE "$cur" 2>/dev/null; then
@@ -191,7 +196,7 @@ def main():
     script = wd / scen.get('script_name', 'test.sh')
     if scen.get('write_script', True):
         script.write_text(SCRIPT.format(log=log, cur=cur, others=' '.join(t for t in test_cases[1:]) or 'nonexistent',
-                                        predicate=scen.get('predicate', 'exit 0')))
+                                        predicate=scen.get('predicate', 'exit 0').replace('@WD@', str(wd))))
         if 'script_shebang' in scen:
             # a script only a shell can start (no `#!` line), or one whose interpreter does not exist
             body = script.read_text().split('\n', 1)[1]
